@@ -228,7 +228,7 @@ def run(tier):
     # ------------------------------------------------------------ (i) generated dictionaries
     nd = 48 if quick else 1200
     nw = 24 if quick else 40
-    kinds = (["normal"] * 6 + ["leaddigit", "digitonly", "badutf8", "escape", "notdict", "normal"])
+    kinds = (["normal"] * 5 + ["leaddigit", "digitonly", "badutf8", "escape", "notdict", "leaddigit", "normal"])
     gens = []
     for i in range(nd):
         kind = kinds[i % len(kinds)]
@@ -237,6 +237,16 @@ def run(tier):
         g["pats"] = H.parse_dict(g["bytes"])
         pats = g["pats"] or []
         words = [gen_word(rng, g, pats) for _ in range(nw)]
+        # words on which a '.'-anchored pattern matches as a whole (exercises the alignment at both ends)
+        anchored = [l for l, _d in pats if l and (l[0] == H.DOT or l[-1] == H.DOT)]
+        for l in (rng.sample(anchored, min(6, len(anchored))) if anchored else []):
+            core = [c for c in l if c != H.DOT]
+            if not core:
+                continue
+            pre = [] if l[0] == H.DOT else [rng.choice(g["lowers"]) for _ in range(rng.randint(0, 2))]
+            post = [] if l[-1] == H.DOT else [rng.choice(g["lowers"]) for _ in range(rng.randint(0, 2))]
+            lead = rng.choice([[], [], [45], [rng.choice(g["lowers"]), 45], [32]])
+            words.append(lead + pre + core + post)
         words.append([rng.choice(g["lowers"]) for _ in range(rng.choice([99, 100, 101, 150]))])
         words.append([])
         g["words"] = words
@@ -383,8 +393,8 @@ def run(tier):
                                     "by the property it contributes at every point, the implementation ignores it: "
                                     "expected %s got %s" % (bytes(exp or []).hex(), bytes(R[1] or []).hex()), rep)
                     elif negs:
-                        v.violation(SIG_F5, "pattern with a digit before a leading '.': result differs from the property "
-                                    "(and hyphens[-1] is accessed)", rep)
+                        v.violation(SIG_F5, "pattern with a digit before a leading '.' matching at the start of a run: result "
+                                    "differs from the property (that digit has no position; the others must land where they are aligned)", rep)
                     else:
                         v.violation("C17:spec-mismatch", "lou_hyphenate differs from the pattern-matching semantics: "
                                     "expected %s got %s" % (bytes(exp or []).hex(), bytes(R[1] or []).hex()), rep)
